@@ -304,12 +304,29 @@ def tallyOf : Tally → Nat → List Kind → Tally
       | .uxsuccess => { s with uxs := s.uxs ++ [i] }
       | _ => s) (i + 1) ks
 
+/-- the exit status agrees with the verdict and the summary with the tests dispatched: status 1 exactly when an error, a
+failure or an unexpected success was reported — a test that calls `sys.exit` is reported as an error and ends the
+run (nothing after it is dispatched; the status is then the test's, and has to be non-zero like the `FAILED` it
+goes with) -/
 def cExit (i : Input) (t : Trace) : Bool :=
   match i.prog, t.exit with
   | none, none => true
-  | some (ff, ks), some (code, out) =>
-      code == (if ks.any Kind.bad then 1 else 0) && out == .running :: (tallyOf {} 0 (dispatched ff ks)).summary
+  | some (ff, ps), some (code, out) =>
+      let ks := progKinds ps
+      (match progExit ff ps with
+        | none => code == (if ks.any Kind.bad then 1 else 0)
+        | some _ => code != 0)
+      && out == .running :: (tallyOf {} 0 (dispatched ff ks)).summary
   | _, _ => false
+
+/-! ### known finding -/
+/-- a test that calls `sys.exit(0)` / `sys.exit()` / `sys.exit(None)` and is reached: `SystemExit` propagates through
+`TestCase.run`, the suite and `TestToolsTestRunner.run` (which prints the summary — with the error, `FAILED` — in its
+`finally`), `sys.exit(not result.wasSuccessful())` is never reached and the process exits with the test's status 0 -/
+def sysExitZero (i : Input) : Bool :=
+  match i.prog with
+  | some (ff, ps) => (match progExit ff ps with | some none | some (some 0) => true | _ => false)
+  | none => false
 
 /-! ### a `StreamFailFast` as the stream target of the decorator -/
 /-- `ExtendedToStreamDecorator(StreamFailFast(callback))` reported to directly: the inner `StreamFailFast` calls *its*
